@@ -40,6 +40,21 @@ class StringConcatViolation:
     line_number: int
     column: int
     loop_type: str  # 'for', 'for_in', 'while', 'do'
+    scope_line: int = 0  # first line of the enclosing function (0 at module level)
+
+
+# Nodes that open a new function scope (the same variable name in another function is another variable)
+_FUNCTION_NODE_TYPES = frozenset(
+    {
+        "function_declaration",
+        "generator_function_declaration",
+        "method_definition",
+        "arrow_function",
+        "function_expression",
+        "function",
+        "generator_function",
+    }
+)
 
 
 # thailint: ignore-next-line[srp.violation] Uses small focused methods to reduce complexity
@@ -50,6 +65,7 @@ class TypeScriptStringConcatAnalyzer(TypeScriptBaseAnalyzer):
         """Initialize the analyzer."""
         super().__init__()
         self._string_variables: set[str] = set()
+        self._scope_line = 0
 
     def find_violations(self, root_node: Node) -> list[StringConcatViolation]:
         """Find all string concatenation in loop violations.
@@ -120,8 +136,12 @@ class TypeScriptStringConcatAnalyzer(TypeScriptBaseAnalyzer):
             self._check_augmented_assignment(node, violations, current_loop)
 
         # Recurse into children
+        outer_scope_line = self._scope_line
+        if node.type in _FUNCTION_NODE_TYPES:
+            self._scope_line = node.start_point[0] + 1
         for child in node.children:
             self._find_concat_in_loops(child, violations, current_loop)
+        self._scope_line = outer_scope_line
 
     def _check_augmented_assignment(
         self, node: Node, violations: list[StringConcatViolation], loop_type: str
@@ -185,6 +205,7 @@ class TypeScriptStringConcatAnalyzer(TypeScriptBaseAnalyzer):
                 line_number=node.start_point[0] + 1,
                 column=node.start_point[1],
                 loop_type=loop_type,
+                scope_line=self._scope_line,
             )
         )
 
@@ -225,12 +246,12 @@ class TypeScriptStringConcatAnalyzer(TypeScriptBaseAnalyzer):
         Returns:
             Deduplicated list with one violation per variable
         """
-        seen: set[str] = set()
+        seen: set[tuple[str, int]] = set()
         result: list[StringConcatViolation] = []
 
         for v in violations:
-            if v.variable_name not in seen:
-                seen.add(v.variable_name)
+            if (v.variable_name, v.scope_line) not in seen:
+                seen.add((v.variable_name, v.scope_line))
                 result.append(v)
 
         return result
